@@ -556,6 +556,126 @@ theorem answersRequest_of_answers {cfg : Config} {env : Env} {tbl : Table} {c : 
     simp [entrySpec, hid] at hs
     rw [← hs]
 
+/-! ### decoding a plainly written Request object -/
+
+def updStr (old : String) : Option Json → String
+  | some (.str s) => s
+  | _ => old
+
+def updAny (old : Option Json) : Option Json → Option Json
+  | none => old
+  | some v => storeAny v
+
+def badStr : Option Json → Bool
+  | none => false
+  | some (.str _) => false
+  | some .null => false
+  | some _ => true
+
+theorem member_cons_ne {k : String} {kv : String × Json} {rest : List (String × Json)} (h : kv.1 ≠ k) :
+    member (kv :: rest) k = member rest k := by
+  simp [member, h]
+
+theorem member_cons_eq {k : String} {v : Json} {rest : List (String × Json)} :
+    member ((k, v) :: rest) k = some v := by
+  simp [member]
+
+theorem member_none_of_not_mem {k : String} {rest : List (String × Json)} (h : k ∉ rest.map (·.1)) :
+    member rest k = none := by
+  simp only [member, Option.map_eq_none_iff, List.find?_eq_none, decide_eq_true_eq]
+  intro x hx hk
+  exact h (List.mem_map.mpr ⟨x, hx, hk⟩)
+
+theorem fold_plain (kvs : List (String × Json)) (st : DecState) (hp : PlainMembers kvs) :
+    kvs.foldl stepField st =
+      { req := { version := updStr st.req.version (member kvs "jsonrpc"),
+                 method := updStr st.req.method (member kvs "method"),
+                 params := updAny st.req.params (member kvs "params"),
+                 id := updAny st.req.id (member kvs "id") },
+        err := st.err || badStr (member kvs "jsonrpc") || badStr (member kvs "method") } := by
+  induction kvs generalizing st with
+  | nil => simp [member, updStr, updAny, badStr]
+  | cons kv rest ih =>
+    obtain ⟨hnd, hall⟩ := hp
+    have hnd' : (rest.map (·.1)).Nodup := (List.nodup_cons.mp hnd).2
+    have hnot : kv.1 ∉ rest.map (·.1) := (List.nodup_cons.mp hnd).1
+    have hp' : PlainMembers rest := ⟨hnd', fun x hx => hall x (List.mem_cons_of_mem _ hx)⟩
+    rw [List.foldl_cons, ih _ hp']
+    cases hf : fieldOf kv.1 with
+    | none =>
+      have h1 : kv.1 ≠ "jsonrpc" := by intro h; rw [h] at hf; exact absurd hf (by decide)
+      have h2 : kv.1 ≠ "method" := by intro h; rw [h] at hf; exact absurd hf (by decide)
+      have h3 : kv.1 ≠ "params" := by intro h; rw [h] at hf; exact absurd hf (by decide)
+      have h4 : kv.1 ≠ "id" := by intro h; rw [h] at hf; exact absurd hf (by decide)
+      simp [stepField, hf, member_cons_ne h1, member_cons_ne h2, member_cons_ne h3, member_cons_ne h4]
+    | some f =>
+      have hmem := hall kv List.mem_cons_self (by simp [hf])
+      obtain ⟨k, v⟩ := kv
+      simp only [List.mem_cons, List.mem_nil_iff, or_false] at hmem
+      simp only at hnot hf
+      rcases hmem with rfl | rfl | rfl | rfl
+      · have hf' : f = .version := by have : fieldOf "jsonrpc" = some .version := by decide
+                                      rw [this] at hf; exact (Option.some.inj hf).symm
+        subst hf'
+        have e1 := member_none_of_not_mem hnot
+        rw [member_cons_eq, member_cons_ne (k := "method") (by simp), member_cons_ne (k := "params") (by simp),
+          member_cons_ne (k := "id") (by simp), e1]
+        cases v <;> simp [stepField, hf, storeString, updStr, updAny, badStr, Bool.or_comm]
+      · have hf' : f = .method := by have : fieldOf "method" = some .method := by decide
+                                     rw [this] at hf; exact (Option.some.inj hf).symm
+        subst hf'
+        have e1 := member_none_of_not_mem hnot
+        rw [member_cons_eq, member_cons_ne (k := "jsonrpc") (by simp), member_cons_ne (k := "params") (by simp),
+          member_cons_ne (k := "id") (by simp), e1]
+        cases v <;> simp [stepField, hf, storeString, updStr, updAny, badStr, Bool.or_comm]
+      · have hf' : f = .params := by have : fieldOf "params" = some .params := by decide
+                                     rw [this] at hf; exact (Option.some.inj hf).symm
+        subst hf'
+        have e1 := member_none_of_not_mem hnot
+        rw [member_cons_eq, member_cons_ne (k := "jsonrpc") (by simp), member_cons_ne (k := "method") (by simp),
+          member_cons_ne (k := "id") (by simp), e1]
+        simp [stepField, hf, updStr, updAny, badStr]
+      · have hf' : f = .id := by have : fieldOf "id" = some .id := by decide
+                                 rw [this] at hf; exact (Option.some.inj hf).symm
+        subst hf'
+        have e1 := member_none_of_not_mem hnot
+        rw [member_cons_eq, member_cons_ne (k := "jsonrpc") (by simp), member_cons_ne (k := "method") (by simp),
+          member_cons_ne (k := "params") (by simp), e1]
+        simp [stepField, hf, updStr, updAny, badStr]
+
+theorem decodeRequest_plain (kvs : List (String × Json)) (hp : PlainMembers kvs) :
+    decodeRequest (.obj kvs) =
+      match stringField (member kvs "jsonrpc"), stringField (member kvs "method") with
+      | some v, some m =>
+        some { version := v, method := m,
+               params := (member kvs "params").bind storeAny, id := (member kvs "id").bind storeAny }
+      | _, _ => none := by
+  unfold decodeRequest
+  simp only [fold_plain kvs {} hp]
+  have hs : ∀ o : Option Json, (stringField o = none ↔ badStr o = true) ∧
+      (∀ s, stringField o = some s → updStr "" o = s) := by
+    intro o
+    cases o with
+    | none => simp [stringField, badStr, updStr]
+    | some v => cases v <;> simp [stringField, badStr, updStr]
+  have ha : ∀ o : Option Json, updAny none o = o.bind storeAny := by
+    intro o; cases o <;> simp [updAny]
+  cases h1 : stringField (member kvs "jsonrpc") with
+  | none => simp [(hs _).1.mp h1]
+  | some v =>
+    cases h2 : stringField (member kvs "method") with
+    | none => simp [(hs _).1.mp h2]
+    | some m =>
+      have b1 : badStr (member kvs "jsonrpc") = false := by
+        cases hb : badStr (member kvs "jsonrpc") with
+        | false => rfl
+        | true => rw [(hs _).1.mpr hb] at h1; cases h1
+      have b2 : badStr (member kvs "method") = false := by
+        cases hb : badStr (member kvs "method") with
+        | false => rfl
+        | true => rw [(hs _).1.mpr hb] at h2; cases h2
+      simp [b1, b2, (hs _).2 v h1, (hs _).2 m h2, ha]
+
 /-! ### argument binding -/
 
 theorem mapGet_head {k : String} {v : Json} {rest : List (String × Json)}
